@@ -2048,6 +2048,23 @@ class Interp:
                 return SymStr(sa.items + sb.items)
         if isinstance(op, ast.Add) and isinstance(a, (str, Render)) and isinstance(b, (str, Render)):
             return self.concat(a, b)
+        plain = (type(None), str, int, float, bool)
+        if isinstance(a, plain) and isinstance(b, plain) and (a is None or b is None or isinstance(a, str) != isinstance(b, str)):
+            # Python semantics for incompatible plain operands: TypeError (str + None, None * 2, "a" - 1 ...)
+            import operator as _op
+            table = {ast.Add: _op.add, ast.Sub: _op.sub, ast.Mult: _op.mul, ast.Div: _op.truediv, ast.Mod: _op.mod,
+                     ast.Pow: _op.pow, ast.FloorDiv: _op.floordiv}
+            f = table.get(type(op))
+            if f is not None:
+                try:
+                    return f(a, b)
+                except TypeError as e:
+                    raise AbsRaise("TypeError", self.site, str(e))
+                except ZeroDivisionError:
+                    raise AbsRaise("ZeroDivisionError", self.site)
+        if isinstance(a, (str, Render)) and b is None or a is None and isinstance(b, (str, Render)):
+            if isinstance(op, ast.Add):
+                raise AbsRaise("TypeError", self.site, "can only concatenate str (not \"NoneType\") to str")
         if isinstance(op, ast.Add) and isinstance(a, Lst) and isinstance(b, Lst):
             return Lst(a.items + b.items)
         if isinstance(op, ast.Mult) and isinstance(a, Lst) and isinstance(b, int):
